@@ -15,7 +15,7 @@ fn c07_set2(i: u8) {
     let b: u8 = kani::any();
     let mut s = ctx2(i);
     let r = s.advance_state(b);
-    println!("C07 set2 ctx={} byte={:#04x} result={:?}", i, b, r);
+    crate::show!("C07 set2 ctx={} byte={:#04x} result={:?}", i, b, r);
     if !matches!(r, Ok(None)) {
         assert!(s == ScancodeSet2::new(), "C07: Set 2 decoder not back in its initial state after an event/error");
     } else {
@@ -49,7 +49,7 @@ fn c07_set1(i: u8) {
     let b: u8 = kani::any();
     let mut s = ctx1(i);
     let r = s.advance_state(b);
-    println!("C07 set1 ctx={} byte={:#04x} result={:?}", i, b, r);
+    crate::show!("C07 set1 ctx={} byte={:#04x} result={:?}", i, b, r);
     if !matches!(r, Ok(None)) {
         assert!(s == ScancodeSet1::new(), "C07: Set 1 decoder not back in its initial state after an event/error");
     } else {
@@ -86,7 +86,7 @@ pub fn c07_t_set2_stream() {
     let ry = s.advance_state(y);
     let rz = s.advance_state(z);
     let rt = s.advance_state(t);
-    println!("C07 set2 stream {:#04x} {:#04x} {:#04x} {:#04x}: {:?} {:?} {:?}", x, y, z, t, ry, rz, rt);
+    crate::show!("C07 set2 stream {:#04x} {:#04x} {:#04x} {:#04x}: {:?} {:?} {:?}", x, y, z, t, ry, rz, rt);
     if !matches!(ry, Ok(None)) {
         let mut f = ScancodeSet2::new();
         assert!(f.advance_state(z) == rz, "C07: byte after an event/error decoded differently from a fresh decoder");
@@ -121,7 +121,7 @@ pub fn c07_t_set1_stream() {
     let ry = s.advance_state(y);
     let rz = s.advance_state(z);
     let rt = s.advance_state(t);
-    println!("C07 set1 stream {:#04x} {:#04x} {:#04x} {:#04x}: {:?} {:?} {:?} {:?}", x, y, z, t, rx, ry, rz, rt);
+    crate::show!("C07 set1 stream {:#04x} {:#04x} {:#04x} {:#04x}: {:?} {:?} {:?} {:?}", x, y, z, t, rx, ry, rz, rt);
     let n = |r: &ScanResult| matches!(r, Ok(None));
     assert!(!(n(&rx) && n(&ry)) && !(n(&ry) && n(&rz)) && !(n(&rz) && n(&rt)), "C07: two consecutive 'no event yet' in Set 1");
     if !n(&ry) {
